@@ -841,6 +841,11 @@ func (g *Gen) evalCall(env *Env, x *ECall) Val {
 			return Val{T: a.T, S: fmt.Sprintf("(ite %s %s %s)", c.S, a.S, b.S)}
 		}
 		return Val{T: a.T, S: fmt.Sprintf("(ite %s %s %s)", c.S, b.S, a.S)}
+	case "strcontains":
+		// strcontains(s, sub): uninterpreted unless the lemma runs with strings=native (then str.contains)
+		a, b := g.eval(env, x.Args[0]), g.eval(env, x.Args[1])
+		f := g.uf("s.contains", []string{"Str", "Str"}, "Bool")
+		return Val{T: types.Typ[types.Bool], S: fmt.Sprintf("(%s %s %s)", f, a.S, b.S)}
 	case "str":
 		// str(b): the string with the bytes of slice b (the term the engine uses for the conversion string(b))
 		v := g.eval(env, x.Args[0])
